@@ -294,13 +294,32 @@ impl Prop for C11 {
                     }
                     }
                     What::Unreal2 { players, rules } => {
+                        // path 0: the protocol's query function; 1: the definition-driven entry point with both toggles given;
+                        // 2 (only where the toggles are the protocol's own defaults): the same with both left out
+                        let dflt = unreal2::GatheringSettings::default();
+                        for path in 0 .. 3u8 {
+                        if path == 2 && (players, rules) != (dflt.players, dflt.mutators_and_rules) {
+                            continue;
+                        }
                         let st = u2_seed();
                         // one datagram per list: stale fragments of a failed section are a delivery phenomenon (C08), not a toggle one
                         let server = ru::U2Server { state: st.clone(), rule_packets: 1, player_packets: 1 };
                         let gs = unreal2::GatheringSettings { players, mutators_and_rules: rules };
                         // unit 1 = rules, unit 2 = players
                         let policy = Sections { valve: false, outcome: [Sec::Valid, so_r, so_p], cur: 0, recvs_in_unit: 0, cts_at: 1 };
-                        let x = run_query(Box::new(server), Box::new(policy), Chooser::new(&[]), || unreal2::query(&addr(), &gs, None));
+                        let x = run_query(Box::new(server), Box::new(policy), Chooser::new(&[]), || {
+                            if path == 0 {
+                                return unreal2::query(&addr(), &gs, None);
+                            }
+                            let game = gamedig::Game { name: "C11", default_port: 7777, protocol: gamedig::protocols::types::Protocol::Unreal2, request_settings: Default::default() };
+                            let extra = gamedig::protocols::types::ExtraRequestSettings { hostname: None, protocol_version: None, gather_players: if path == 2 { None } else { Some(players) }, gather_rules: if path == 2 { None } else { Some(rules) }, check_app_id: None };
+                            let a = addr();
+                            let r = gamedig::query_with_timeout_and_extra_settings(&game, &a.ip(), Some(a.port()), None, Some(extra))?;
+                            match r.as_original() {
+                                gamedig::protocols::GenericResponse::Unreal2(v) => Ok(v.clone()),
+                                _ => Err(GDErrorKind::PacketBad.into()),
+                            }
+                        });
                         ctx.account(&x, 0);
                         let sent_kinds: Vec<u8> = x.log.iter().filter_map(|e| if let WireEvent::Send { bytes, .. } = e { bytes.get(4).copied() } else { None }).collect();
                         let mut resp = st.expected(false, false);
@@ -361,6 +380,7 @@ impl Prop for C11 {
                         } else if so_p != Sec::Valid {
                             ctx.sample(serde_json::json!({"case": label, "sections": cfg, "outcome": x.outcome.class(), "request_kinds": sent_kinds}));
                         }
+                    }
                     }
                 }
             }
